@@ -229,6 +229,9 @@ func TestC05Stress(t *testing.T) {
 		if sc.GlogV > 0 {
 			labels = append(labels, "glog-verbosity>0")
 		}
+		if sc.ACL {
+			labels = append(labels, "server-with-an-acl-that-admits-everybody")
+		}
 		rec.Case(sc, rounds >= 20 && sc.Hot > 1, labels...)
 		if err != nil {
 			rec.AddViolation(sc, "stress", "oracle", "%v", err)
